@@ -69,14 +69,31 @@ func (g *gen) ckpt(db int) uint64 {
 }
 
 func (g *gen) finishCkpt(db int, id uint64) {
-	g.add(opJ{Op: "step", DB: db, Task: "ckpt", ID: id})
-	g.add(opJ{Op: "step", DB: db, Task: "ckpt", ID: id})
+	f1, f2 := 0, 0
+	if g.r.Chance(1, 12) {
+		f1 = 1 // the WAL save fails
+	} else if g.r.Chance(1, 10) {
+		f2 = 1 + g.r.Intn(2) // the list save fails (write / delete of a pending WAL)
+	}
+	g.add(opJ{Op: "step", DB: db, Task: "ckpt", ID: id, Fail: f1})
+	g.add(opJ{Op: "step", DB: db, Task: "ckpt", ID: id, Fail: f2})
+}
+
+func (g *gen) fault() int {
+	if g.r.Chance(1, 4) {
+		return 1 + g.r.Intn(2)
+	}
+	return 0
 }
 
 func (g *gen) steps(db int) {
 	switch g.r.Intn(4) {
 	case 0:
-		g.add(opJ{Op: "step", DB: db, Task: "flush"})
+		f := 0
+		if g.r.Chance(1, 6) {
+			f = 1
+		}
+		g.add(opJ{Op: "step", DB: db, Task: "flush", Fail: f})
 	case 1:
 		g.add(opJ{Op: "step", DB: db, Task: "compact"})
 	case 2:
@@ -144,7 +161,7 @@ func (g *gen) random(n int) {
 				if g.r.Chance(2, 3) || len(keep) == 0 {
 					keep = append(keep, g.ids[len(g.ids)-1]) // else: a late update that does not know the newest checkpoints yet
 				}
-				g.add(opJ{Op: "retain", DB: db, IDs: keep})
+				g.add(opJ{Op: "retain", DB: db, IDs: keep, Fail: g.fault()})
 			}
 		case x < 86:
 			if len(g.ids) > 0 && g.ndb < 5 {
@@ -313,7 +330,7 @@ func (g *gen) gcRegime() {
 	id2 := g.ckpt(0)
 	g.add(opJ{Op: "drain", DB: 0})
 	if g.r.Bool() {
-		g.add(opJ{Op: "retain", DB: 0, IDs: []uint64{id2}})
+		g.add(opJ{Op: "retain", DB: 0, IDs: []uint64{id2}, Fail: g.fault()})
 	}
 	g.add(opJ{Op: "gc"})
 	// a restored database sharing the tables with the original
@@ -330,7 +347,7 @@ func (g *gen) gcRegime() {
 	id3 := g.ckpt(d)
 	g.add(opJ{Op: "drain", DB: d})
 	if g.r.Chance(2, 3) {
-		g.add(opJ{Op: "retain", DB: d, IDs: []uint64{id3}})
+		g.add(opJ{Op: "retain", DB: d, IDs: []uint64{id3}, Fail: g.fault()})
 	}
 	g.add(opJ{Op: "gc"})
 	switch g.r.Intn(4) {
@@ -346,6 +363,43 @@ func (g *gen) gcRegime() {
 		g.add(opJ{Op: "read", DB: d})
 	}
 	g.restoreAll(id3, false)
+}
+
+// storage faults: a retention update / a checkpoint's list save / WAL save / a flush's table save fails; afterwards the durable
+// checkpoints file decides what must still exist; crash and restore the handles it still holds.
+func (g *gen) faults() {
+	var ids []uint64
+	for i := 0; i < 2+g.r.Intn(2); i++ {
+		g.writes(0, 1+g.r.Intn(3))
+		if g.r.Bool() {
+			g.big(0)
+			if g.r.Chance(1, 3) {
+				g.add(opJ{Op: "step", DB: 0, Task: "flush", Fail: 1})
+			}
+			g.add(opJ{Op: "drain", DB: 0})
+		}
+		id := g.ckpt(0)
+		ids = append(ids, id)
+		g.finishCkpt(0, id)
+		g.add(opJ{Op: "drain", DB: 0})
+	}
+	last := ids[len(ids)-1]
+	g.add(opJ{Op: "retain", DB: 0, IDs: []uint64{last}, Fail: 1 + g.r.Intn(2)})
+	if g.r.Bool() {
+		g.add(opJ{Op: "gc"})
+	}
+	switch g.r.Intn(3) {
+	case 0: // the update is retried and succeeds
+		g.add(opJ{Op: "retain", DB: 0, IDs: []uint64{last}})
+	case 1: // a later checkpoint saves the list
+		g.writes(0, 1)
+		id := g.ckpt(0)
+		ids = append(ids, id)
+		g.add(opJ{Op: "drain", DB: 0})
+	}
+	g.add(opJ{Op: "crash", DB: 0})
+	g.restoreAll(ids[0], false)
+	g.restoreAll(hx.Pick(g.r, ids), g.r.Bool())
 }
 
 func (g *gen) build(name string, params map[string]any) *hx.Case {
@@ -370,9 +424,9 @@ func (eng) Generate(mode, tier string, r *hx.Rand) []*hx.Case {
 		g := &gen{r: r.Fork(), ndb: 1, kgs: 4}
 		params := map[string]any{"mode": mode, "mem": hx.Pick(g.r, []int{45, 60, 60, 90}), "wal": hx.Pick(g.r, []int{1000, 1000, 70}), "tfs": hx.Pick(g.r, []int{60, 80, 200})}
 		kind := ""
-		weights := []string{"random", "random", "parked", "parked", "samedir", "chain", "gc"}
+		weights := []string{"random", "random", "parked", "parked", "samedir", "chain", "gc", "faults"}
 		if mode == "c09" {
-			weights = []string{"random", "gc", "gc", "gc", "chain", "samedir"}
+			weights = []string{"random", "gc", "gc", "gc", "chain", "samedir", "faults", "faults"}
 		}
 		switch kind = hx.Pick(g.r, weights); kind {
 		case "random":
@@ -385,6 +439,8 @@ func (eng) Generate(mode, tier string, r *hx.Rand) []*hx.Case {
 			g.chain()
 		case "gc":
 			g.gcRegime()
+		case "faults":
+			g.faults()
 		}
 		out = append(out, g.build(fmt.Sprintf("%s-%s-%d", mode, kind, i), params))
 	}
